@@ -98,9 +98,53 @@ def position_laws(ctx, coords):
                     lambda: f'({o.name}*{o2.name})*p != {o.name}*({o2.name}*p) for {p}', dict(pl, o2=o2.name))
 
 
+def val(v):
+    """field-by-field value of a geometry object, whatever (sub)class carries it"""
+    if isinstance(v, Transform):
+        return ('T', int(v.position.y), int(v.position.x), v.orientation.name)
+    if isinstance(v, Position):
+        return ('P', v.y, v.x)
+    if isinstance(v, Area):
+        return ('A', tuple(v.ys), tuple(v.xs))
+    if isinstance(v, Orientation):
+        return ('O', v.name)
+    return ('?', repr(v))
+
+
+class Pose(Transform):
+    """a user's subclass of Transform adding nothing but a helper"""
+
+    def describe(self):
+        return f'{self.position} {self.orientation.name}'
+
+
+class Cell(Position):
+    pass
+
+
+class Window(Area):
+    pass
+
+
 def transform_laws(ctx, triples):
     I = Transform(Position(0, 0), Orientation.F)
-    for (t1, t2, t3, x) in triples:
+    for n, (t1, t2, t3, x) in enumerate(triples):
+        if n % 5 == 3:
+            # instances of user subclasses (a Pose is still a Transform, a Cell still a Position) take part in the algebra with
+            # the value they carry: every product with a subclass instance on either side has the value of the plain product
+            # (dataclass equality is class-sensitive, so values are compared field by field)
+            p2, px = Pose(Cell(t2.position.y, t2.position.x), t2.orientation), Cell(x.y, x.x)
+            p1 = Pose(t1.position, t1.orientation)
+            ys_, xs_ = sorted([t2.position.y, t3.position.y]), sorted([t2.position.x, t3.position.x])
+            W = Window((ys_[0], ys_[1]), (xs_[0], xs_[1]))
+            PA = Area((ys_[0], ys_[1]), (xs_[0], xs_[1]))
+            law(ctx, 'subclass_instances', lambda: all(val(a) == val(b) for a, b in [
+                (t1 * p2, t1 * t2), (p1 * t2, t1 * t2), (p1 * p2, t1 * t2), (t1 * px, t1 * x), (p1 * x, t1 * x), (p1 * px, t1 * x),
+                (-p1, -t1), (t1 * W, t1 * PA), (p1 * PA, t1 * PA), (t1.orientation * px, t1.orientation * x),
+                (t1.orientation * W, t1.orientation * PA), (px + t2.position, x + t2.position), (t2.position + px, t2.position + x),
+                (px - t2.position, x - t2.position), (-px, -x), (p1 * t3.orientation, t1 * t3.orientation)]),
+                lambda: f'a product involving a subclass instance differs in value from the plain product: {t1},{t2},{x}', 
+                {'t': [[t.position.y, t.position.x, t.orientation.name] for t in (t1, t2, t3)], 'x': [x.y, x.x]})
         pl = {'t': [[t.position.y, t.position.x, t.orientation.name] for t in (t1, t2, t3)], 'x': [x.y, x.x]}
         law(ctx, 'transform_assoc', lambda: (t1 * t2) * t3 == t1 * (t2 * t3) and t1 * I == t1 and I * t1 == t1,
             lambda: f'associativity/identity fails for {t1},{t2},{t3}', pl)
@@ -229,7 +273,16 @@ def grid_laws(ctx, shapes, rng):
             pl = {'shape': [h, w], 'o': o.name}
 
             def cond():
+                layout = [[id(x) for x in row] for row in grid.objects]
                 g2 = grid * o
+                first = [[id(x) for x in row] for row in g2.objects]
+                # rotating leaves its operand alone, and asking again gives the same arrangement without disturbing the first answer
+                if [[id(x) for x in row] for row in grid.objects] != layout:
+                    return False
+                again = grid * o
+                if [[id(x) for x in row] for row in again.objects] != first or [[id(x) for x in row] for row in g2.objects] != first \
+                        or [[id(x) for x in row] for row in grid.objects] != layout:
+                    return False
                 same_ids = collections.Counter(id(x) for row in g2.objects for x in row) == ids
                 back = (g2 * (-o))
                 shape_ok = (g2.shape.height, g2.shape.width) == ((h, w) if o in (Orientation.F, Orientation.B) else (w, h))
@@ -241,7 +294,7 @@ def grid_laws(ctx, shapes, rng):
                     if o is not Orientation.F else True
                 comm = [[id(x) for x in r] for r in (o * grid).objects] == [[id(x) for x in r] for r in g2.objects]
                 return same_ids and shape_ok and restored and order and comm
-            law(ctx, 'grid_rotation', cond, lambda: f'grid rotation by {o.name} of a {h}x{w} grid loses objects / is not undone by the inverse',
+            law(ctx, 'grid_rotation', cond, lambda: f'grid rotation by {o.name} of a {h}x{w} grid loses objects / modifies its operand / is not repeatable / is not undone by the inverse',
                 pl)
             # the rotation agrees with the action on positions: object at p ends up where o maps p (up to translation)
             for o2 in O:
@@ -314,7 +367,7 @@ def replay(ctx, kind, payload):
         orientation_laws(ctx)
     elif lawname in ('linear', 'isometry'):
         position_laws(ctx, [tuple(payload['p'] + payload['q'])])
-    elif lawname in ('transform_assoc', 'transform_inverse', 'transform_action', 'area_image', 'area_spanned'):
+    elif lawname in ('transform_assoc', 'transform_inverse', 'transform_action', 'area_image', 'area_spanned', 'subclass_instances'):
         ts = [Transform(Position(t[0], t[1]), Orientation[t[2]]) for t in payload['t']]
         transform_laws(ctx, [(ts[0], ts[1], ts[2], Position(*payload['x']))])
     elif lawname == 'inplace_operators':
